@@ -287,8 +287,19 @@ impl AdfCase {
         for l in &self.labels {
             s.push_str(&format!("s({}).", l));
         }
-        for (i, a) in self.asts.iter().enumerate() {
-            s.push_str(&format!("ac({},{}).", self.labels[i], a.to_text(&self.labels, ",")));
+        // the ac facts come in an order derived from the id (statement declaration order, hence the variable order, is
+        // unaffected): the parser's formula order is then not the identity for most cases
+        let n = self.asts.len();
+        let h: usize = self.id.bytes().fold(7usize, |a, b| a.wrapping_mul(31).wrapping_add(b as usize));
+        let mut order: Vec<usize> = (0..n).collect();
+        if h % 3 != 0 && n > 1 {
+            order.rotate_left(1 + (h / 3) % (n - 1));
+            if h % 2 == 0 {
+                order.reverse();
+            }
+        }
+        for i in order {
+            s.push_str(&format!("ac({},{}).", self.labels[i], self.asts[i].to_text(&self.labels, ",")));
         }
         s
     }
